@@ -303,6 +303,11 @@ func (s *sshSimulatorService) Handle(ctx context.Context, conn net.Conn) error {
 						}
 
 						payload := decoder.String()
+						if decoder.LastError() != nil {
+							// truncated payload, nothing more can be decoded
+							break
+						}
+
 						payloads = append(payloads, payload)
 					}
 
@@ -325,6 +330,11 @@ func (s *sshSimulatorService) Handle(ctx context.Context, conn net.Conn) error {
 						}
 
 						payload := decoder.String()
+						if decoder.LastError() != nil {
+							// truncated payload, nothing more can be decoded
+							break
+						}
+
 						payloads = append(payloads, payload)
 					}
 
